@@ -574,8 +574,14 @@ func genTrigOps(g *Gen, tier string, w *bufio.Writer) {
 	}
 	// random scripts: more keys/times/locations, polls and end of stream anywhere
 	locs := []int{0, 1, 101, 103}
+	cfgs1 := append(sqlTriggerConfigs(1), exoticTriggerConfigs(1)...)
 	for i := 0; i < nrand; i++ {
 		c := Pick(g, cfgs)
+		// a third of the scripts: the time field is the SECOND key column (GROUP BY id, window_end)
+		timeSecond := i%3 == 2
+		if timeSecond {
+			c = Pick(g, cfgs1)
+		}
 		n := 1 + g.Intn(randLen)
 		shaped := g.Chance(2, 3)
 		var ps []string
@@ -583,7 +589,11 @@ func genTrigOps(g *Gen, tier string, w *bufio.Writer) {
 		for len(ps) < n {
 			switch k := g.Intn(12); {
 			case k < 7:
-				ps = append(ps, fmt.Sprintf("K2 t%d:%d i%d", 1000*(1+g.Intn(4)), Pick(g, locs), g.Intn(3)))
+				if timeSecond {
+					ps = append(ps, fmt.Sprintf("K2 i%d t%d:%d", g.Intn(3), 1000*(1+g.Intn(4)), Pick(g, locs)))
+				} else {
+					ps = append(ps, fmt.Sprintf("K2 t%d:%d i%d", 1000*(1+g.Intn(4)), Pick(g, locs), g.Intn(3)))
+				}
 				if shaped {
 					ps = append(ps, "P")
 				}
